@@ -24,10 +24,34 @@ def frames_for(ev):
     return None
 
 
-def run_history(hist):
-    """hist: list of (op, event).  Returns a list of problems (empty = the property held on this history)."""
+class FakeRel:
+    """stand-in for an external (rel-like) event loop as WrappedDispatcher uses it: buffwrite() writes at once"""
+
+    def __init__(self):
+        self.queued = []
+
+    def signal(self, *a):
+        pass
+
+    def abort(self, *a):
+        pass
+
+    def buffwrite(self, sock, data, send, on_error):
+        self.queued.append((sock is not None, len(data)))
+        if sock is not None:
+            while data:
+                n = send(sock, data)
+                data = data[n:]
+
+
+def run_history(hist, dispatcher=None):
+    """hist: list of (op, event); dispatcher: None | 'builtin' | 'external' - the object WebSocketApp would install on the
+    connection.  Returns a list of problems (empty = the property held on this history)."""
     import websocket
-    ws = websocket.WebSocket()
+    import websocket._dispatcher as dm
+    rel = FakeRel()
+    dobj = None if dispatcher is None else dm.Dispatcher(None, 1) if dispatcher == "builtin" else dm.WrappedDispatcher(None, None, rel, lambda *a: None)
+    ws = websocket.WebSocket(dispatcher=dobj)
     sock = MemSock([], eof=False)
     ws.sock = sock
     ws.connected = True
@@ -44,6 +68,7 @@ def run_history(hist):
         elif ev == "timeout":
             sock.script.append("timeout")
         before_events = len(sock.events)
+        before_queued = len(rel.queued)
         before_wire = len(sock.wire())
         was_released = ws.sock is None
         exc = None
@@ -76,6 +101,8 @@ def run_history(hist):
                 problems.append(f"step {i} {op}: after release expected WebSocketConnectionClosedException, got {name}")
             if len(sock.events) != before_events:
                 problems.append(f"step {i} {op}: transport touched after release: {sock.events[before_events:]}")
+            if len(rel.queued) != before_queued:
+                problems.append(f"step {i} {op}: data handed to the external dispatcher after release: {rel.queued[before_queued:]}")
         if op in ("close_bad", "send_close_bad"):
             if op == "send_close_bad" and not was_released and name != "ValueError":
                 problems.append(f"step {i} {op}: expected ValueError, got {name}")
@@ -112,7 +139,8 @@ def search(seed, budget, max_len=5):
     for t in range(budget):
         n = rnd.randint(1, max_len)
         hist = [(rnd.choice(OPS), rnd.choice(EVENTS + [None, None])) for _ in range(n)]
-        p = run_history(hist)
+        disp = rnd.choice([None, None, "builtin", "external"])
+        p = run_history(hist, disp)
         if p:
             # shrink: drop steps while it still fails
             h = list(hist)
@@ -121,10 +149,10 @@ def search(seed, budget, max_len=5):
                 changed = False
                 for j in range(len(h)):
                     h2 = h[:j] + h[j + 1:]
-                    if h2 and run_history(h2):
+                    if h2 and run_history(h2, disp):
                         h, changed = h2, True
                         break
-            return dict(found=True, witness=dict(history=h), detail=run_history(h), tried=t + 1)
+            return dict(found=True, witness=dict(history=h, dispatcher=disp), detail=run_history(h, disp), tried=t + 1)
     return dict(found=False, tried=budget)
 
 
@@ -133,7 +161,7 @@ def concretise(res, tier, seed):
 
 
 def replay_witness(w):
-    return bool(run_history([tuple(x) for x in w["history"]]))
+    return bool(run_history([tuple(x) for x in w["history"]], w.get("dispatcher")))
 
 
 if __name__ == "__main__":
